@@ -182,10 +182,13 @@ def make_setup_exc(kind):
 # ---- (c) ------------------------------------------------------------------------------------------------------------
 def server_case(flavour, resume, lease, publisher, raising, frame_kind, part):
     from rsocket.lease import SingleLeasePublisher
+    from mc.app import pl
     calls = []
+    seen = []
 
     def on_setup(h, p):
         calls.append(1)
+        seen.append(pl(p))
         if raising == 'after-await':
             async def later():
                 import asyncio
@@ -199,7 +202,8 @@ def server_case(flavour, resume, lease, publisher, raising, frame_kind, part):
              lease_publisher=SingleLeasePublisher(maximum_request_count=3) if publisher else None)
     try:
         if frame_kind == 'setup':
-            raw = R.enc_setup(data=b'sd', metadata=b'sm', lease=lease, resume_token=b'tok' if resume else None)
+            raw = R.enc_setup(data=b'sd', metadata=b'sm', lease=lease, resume_token=b'tok' if resume else None,
+                              data_mime=b'text/plain', metadata_mime=b'message/x.rsocket.routing.v0')
         else:
             raw = R.enc_resume()
         s.peer(raw)
@@ -227,6 +231,10 @@ def server_case(flavour, resume, lease, publisher, raising, frame_kind, part):
                 part.violate('C16.on-setup-once', 'C16.on-setup-once | calls=%d | %s' % (len(calls), ctx), 'acceptable SETUP: on_setup invoked %d times' % len(calls), wit)
             if errs:
                 part.violate('C16.accepts-valid-setup', 'C16.accepts-valid-setup | %s' % ctx, 'acceptable SETUP answered with %s' % errs, wit)
+            got = [ev[4] for ev in s.api('handler') if ev[3] == 'on_setup']
+            want = (b'text/plain', b'message/x.rsocket.routing.v0', (b'sd', b'sm'))
+            if got and got[0] != want:
+                part.violate('C16.on-setup-once', 'C16.on-setup-once | arguments | %s' % ctx, 'on_setup received %s, the SETUP carried %s' % (got[0], want), wit)
         else:
             part.nontriv(ctx)
             if len(errs) != 1 or errs[0].sid != 0 or errs[0].error_code != want:
